@@ -198,6 +198,29 @@ def hist_case(mode, text, k):
     return case
 
 
+def hist_dec_case(mode, data, poison):
+    """the decoder is a function of its input: a decode that follows a refused / lenient decode of octets ending in the escape
+    code (or in a high octet) gives what it gives on a fresh codec (decoder state kept between calls)"""
+    from aiosmpplib.codec import find_codec_info
+    pk = find_codec_info('gsm0338_packed')
+    for c in (codec(), pk):
+        for pm in poison:
+            try:
+                c.decode(bytes([0x41, spec.ESC]), pm)
+            except Exception:      # noqa
+                pass
+            try:
+                c.decode(bytes([0x41, 0x80, spec.ESC]), pm)
+            except Exception:      # noqa
+                pass
+    case = dec_case(mode, data)
+    case.inp = {'op': 'hist-dec', 'mode': mode, 'hex': bytes(data).hex(), 'poison': list(poison)}
+    case.sig = ('hist-dec',) + tuple(case.sig[1:])
+    if case.fail:
+        case.fail = 'after decodes (%s) of octets ending in the escape code: %s' % ('/'.join(poison), case.fail)
+    return case
+
+
 REPS = ['A', '@', '€', '[', 'Α', '中', '\U0001F600', '\x1b']
 
 
@@ -281,6 +304,11 @@ def generate(rng, tier):
         for m in MODES:
             for t in ('e' + r, 'e' + r + 'z', r + 'z', '€' + r + r, 'a' + r + '[' + r):
                 yield enc_case(m, t)
+    # 5c. decoder history: a decode after another decode was refused (strict) or ended in the escape code
+    for _ in range(2000 if thorough else 300):
+        n = rng.randrange(1, 20)
+        data = [rng.choice((rng.randrange(128), 0x28, 0x65, 0x3C)) for _ in range(n)]
+        yield hist_dec_case(rng.choice(MODES), data, rng.choice((('strict',), ('replace',), ('ignore',), ('strict', 'replace'))))
     # 6. history independence: texts that have been through both codecs before
     for _ in range(3000 if thorough else 500):
         n = rng.randrange(1, 30)
@@ -290,6 +318,8 @@ def generate(rng, tier):
 
 
 def replay(inp):
+    if inp['op'] == 'hist-dec':
+        return hist_dec_case(inp['mode'], bytes.fromhex(inp['hex']), tuple(inp['poison']))
     if inp['op'] == 'hist':
         return hist_case(inp['mode'], ''.join(chr(c) for c in inp['text']), inp['k'])
     if inp['op'] == 'enc':
